@@ -68,6 +68,11 @@ def run(module, cfg=None, env=None, workers=16, timeout=3600, extra=(), simulate
             m3 = re.match(r'Error: Action property (\S+) is violated', line)
             if m3: res['violated'].append(m3.group(1))
     res['printed'] = parse_printed(stdout)
+    # -coverage: "<Action line a, col b to line c, col d of module M>: distinct:generated" (last report wins)
+    acts = {}
+    for m in re.finditer(r'^<(\w+) line \d+, col \d+ to line \d+, col \d+ of module (\w+)(?: \([\d ]+\))?>: (\d+):(\d+)', stdout, re.M):
+        acts[m.group(1)] = [int(m.group(3)), int(m.group(4))]
+    res['actions'] = acts
     return res
 
 def must_ok(res, what=''):
